@@ -360,7 +360,8 @@ func c10BodyShift(c *mc.Ctx, alpha []c10Entry, L, split int, stSet bool, fallbac
 		}
 	}
 	shared := &corecrl.Bundle{BaseCRL: base, DeltaCRL: delta}
-	if L <= 2 && !fallback {
+	if !fallback && (L == 1 || (L == 2 && len(alpha) <= 100)) {
+		// (not for the 292^2 lists of the full alphabet: the smaller alphabets have every kind of entry next to an other-serial one)
 		// the same bundle *object* (as a cache would hand it out) has just answered for a sibling certificate - the one the
 		// other-serial entries of the alphabet are about: checking one certificate must not change what the lists say about another
 		sib := c10Sibling(w)
